@@ -32,12 +32,13 @@ Proof.
 Qed.
 
 Lemma b0_nonneg : nonneg (bal b0).
-Proof. intro a. do 12 (destruct a as [|a]; [vm_compute; congruence|]). vm_compute. congruence. Qed.
+Proof. intro a. do 14 (destruct a as [|a]; [vm_compute; congruence|]). vm_compute. congruence. Qed.
 
 Example txs_wf : Forall (tx_wf e0) [t_odd; t_low; t_fwd; t_sds; t_rev].
 Proof. repeat constructor; simpl; lia. Qed.
 
-Definition show (r : bank * outcome) : outcome * list Z * Z := (snd r, map (bal (fst r)) universe, supply (fst r)).
+Definition shown : list nat := [0; 1; 2; 3; 4; 5; 6; 7; 8; 9; 10; 11]%nat.
+Definition show (r : bank * outcome) : outcome * list Z * Z := (snd r, map (bal (fst r)) shown, supply (fst r)).
 
 Example deliver_nonvacuous :
   show (deliver e0 b0 t_odd) = (Ok,     [999999968499; 31507; 1; 50; 0; 0; 100; 0; 0; 0; 0; 0], 5000000000000) /\
@@ -118,7 +119,7 @@ Proof.
   - intros m [<-|[<-|[]]]; constructor; simpl; try lia; reflexivity.
 Qed.
 
-Definition showb (r : bank * boutcome) : boutcome * list Z * Z := (snd r, map (bal (fst r)) universe, supply (fst r)).
+Definition showb (r : bank * boutcome) : boutcome * list Z * Z := (snd r, map (bal (fst r)) shown, supply (fst r)).
 
 Example bundle_nonvacuous :
   showb (deliver_bundle e0 b2s [bm1; bm2]) =
